@@ -120,3 +120,23 @@ def share_roundtrip(ex, nbytes):
     except BTClibValueError:
         return {"own_mnemonic_is_read_back": False}
     return {"same_share": back == s}
+
+
+@ob("C13", "slip39_rs1024_checksum_verifies", quick=[dict(n=4), dict(n=17)], thorough=[dict(n=n) for n in (1, 4, 17, 30)],
+    bound="n symbolic 10-bit word indexes (17 = the data words of a 20-word share, 30 = of a 33-word share), both customization strings: the three checksum words are 10-bit values and make "
+          "the sequence verify; for n <= 4 the same words fail under the other customization string",
+    functions=["btclib.mnemonic.slip39._rs1024_checksum", "btclib.mnemonic.slip39._rs1024_verify", "btclib.mnemonic.slip39._rs1024_polymod"],
+    outside=["error detection (that up to three wrong words never verify): an XOR-unsatisfiability question the solver answered 'unknown' to in 300 s even for 4 data words",
+             "the other-customization claim for 17 or more words (unknown)"], min_ok=1, timeout=900, query_timeout_ms=300000)
+def rs1024(ex, n):
+    ex.merge_conditionals()
+    data = [ex.int(f"w{i:02d}", 0, 1023) for i in range(n)]
+    claims = {}
+    for ext in (False, True):
+        cs = slip39._rs1024_checksum(data, ext)
+        full = data + cs
+        claims[f"checksum_words_in_range_{int(ext)}"] = sand(len(cs) == 3, *[sand(c >= 0, c <= 1023) for c in cs])
+        claims[f"own_checksum_verifies_{int(ext)}"] = slip39._rs1024_verify(full, ext) == True           # noqa: E712
+        if n <= 4:
+            claims[f"other_customization_fails_{int(ext)}"] = slip39._rs1024_verify(full, not ext) == False  # noqa: E712
+    return claims
